@@ -38,6 +38,9 @@ TARGETS = [
     ("UserData", "modules/pel/peltool/user_data.py", "UserData", "__init__"),
     ("ExtUserData", "modules/pel/peltool/ext_user_data.py", "ExtUserData", "__init__"),
     ("Default", "modules/pel/peltool/default.py", "Default", "__init__"),
+    ("SRC", "modules/pel/peltool/src.py", "SRC", "toJSON"),
+    ("FRUIdentity", "modules/pel/peltool/src.py", "FRUIdentity", "__init__"),
+    ("PCEIdentity", "modules/pel/peltool/src.py", "PCEIdentity", "__init__"),
 ]
 
 
